@@ -35,6 +35,10 @@ def configs(tier, seed):
         {"name": "std-offset-1e4", "offset": 1.0e4, "kwargs": {"nlive": 50}},
         {"name": "std-flow-t", "sharp": 6.0,
          "kwargs": {"nlive": 80, "maximum_uninformed": 80, "shrinkage_expectation": "t", "training_frequency": 80}},
+        # proposals that carry auxiliary parameters with their own prior: the stored logP must still be the MODEL's log-prior
+        {"name": "std-augmented", "sharp": 4.0, "prior": "gauss",
+         "kwargs": {"nlive": 60, "maximum_uninformed": 60, "training_frequency": 60, "flow_proposal_class": "AugmentedFlowProposal",
+                    "augment_dims": 1, "max_iteration": 260}},
         # the same questions about a run that died after a checkpoint and was resumed, twice, across the switch to the flow
         {"name": "std-resumed", "sharp": 4.0, "resume_after": [40, 130], "checkpoint_interval": 5, "resume_finished": True,
          "kwargs": {"nlive": 60, "maximum_uninformed": 60, "training_frequency": 60}},
@@ -51,6 +55,8 @@ def configs(tier, seed):
          "kwargs": {"nlive": 60, "max_iteration": 3, "min_samples": 20, "min_remove": 2}},
         {"name": "ins-gaussprior", "ins": True, "prior": "gauss",
          "kwargs": {"nlive": 60, "max_iteration": 3, "min_samples": 20, "min_remove": 2}},
+        {"name": "ins-cut", "ins": True, "cut": 2.5,
+         "kwargs": {"nlive": 80, "max_iteration": 3, "min_samples": 20, "min_remove": 2}},
         {"name": "ins-resumed", "ins": True, "resume_after": [1, 2], "resume_finished": True,
          "kwargs": {"nlive": 60, "max_iteration": 4, "min_samples": 20, "min_remove": 2}},
         {"name": "ins-strict-replace", "ins": True,
